@@ -113,10 +113,10 @@ def gen_case(rng: random.Random, tier):
         mn, mx = gen.fits_range(n)
         lo = hi = None
         if rng.random() < 0.7:
-            lo = rng.randint(mn - 2, 0)
+            lo = rng.choice([rng.randint(mn - 2, 0), 0, 0, -1])      # 0: a forward-only branch
             opcfg['argument']['min'] = lo
         if rng.random() < 0.7:
-            hi = rng.randint(0, mx + 2)
+            hi = rng.choice([rng.randint(0, mx + 2), 0, 0, 1])       # 0: a backward-only branch
             opcfg['argument']['max'] = hi
         from_end = rng.random() < 0.5
         if from_end:
